@@ -99,7 +99,24 @@ let firel ll = match stepl !lst ll with
   | Some s -> lst := s; st := s.lbase; incr fired; if !fired land 63 = 0 then compact ()
   | None -> raise (Stuck (match ll with LB l -> lname l | LNew _ -> "row-new" | LExtract _ -> "row-extract" | LMoveCtor _ -> "row-movector"
                                         | LSwap _ -> "row-swap" | LAdd _ -> "row-add" | LDestroy _ -> "row-destroy(null list pointer or buffer not detached)"))
+(* the GENERATED pvDeallocateFreeRaws (translated from the real function) run on the memory of the state before the drain: it must
+   null the head, use seq_cst, and hand to the pool exactly the buffers, in the order, the machine reclaims (= the real free list,
+   which the trace comparison checks against this same state) *)
+let check_generated_drain before after =
+  let zi k = z_of_int k in
+  let encp = function None -> zi 0 | Some q -> zi (i q + 2) in
+  let mem_of (s : state) a = let k = int_of_z a in if k = 1 then encp s.head else if k >= 2 then encp (s.link (n (k - 2))) else zi 0 in
+  match Gen_FreeListOwner.pvDeallocateFreeRaws (zi 1) (n (Stdlib.List.length before.shared + 1)) (mem_of before) (fun _ -> zi 0) (zi 5) with
+  | GenPrelude.Ok (((_, m'), log), mo) ->
+      let cnt = int_of_z (log (zi 0)) in
+      let freed = Stdlib.List.init cnt (fun k -> int_of_z (log (zi (k + 1))) - 2) in
+      let newly = Stdlib.List.length after.reclaimed - Stdlib.List.length before.reclaimed in
+      let model = Stdlib.List.rev (Stdlib.List.filteri (fun k _ -> k < newly) (Stdlib.List.map (fun (r, _) -> i r) after.reclaimed)) in
+      if int_of_z mo <> 5 || int_of_z (m' (zi 1)) <> 0 || freed <> model || freed <> Stdlib.List.map i before.shared
+      then raise (Stuck "generated-drain-differs-from-model")
+  | _ -> raise (Stuck "generated-drain-stuck")
 let ldrain () =
+  let before = !lst.lbase in
   firel (LB OExchange);
   let rec loop k =
     if k > 100000 then raise (Stuck "drain-loop") else
@@ -107,7 +124,8 @@ let ldrain () =
     | ODrain None -> firel (LB ODone)
     | ODrain (Some _) -> firel (LB ORead); firel (LB (OFree None)); loop (k + 1)
     | _ -> raise (Stuck "owner-pc")
-  in loop 0
+  in loop 0;
+  check_generated_drain before !lst.lbase
 (* ~DataRow of object o, run to completion on one of three disposer ids; every third real push has a spurious CAS failure *)
 let destroy_obj o =
   let holds = (!lst.objs (n o)).o_raw <> None in
@@ -364,7 +382,13 @@ let run_seq2 evs =
   print_endline (Buffer.contents buf)
 
 let () =
-  if Array.length Sys.argv > 1 && Sys.argv.(1) = "prog" then prog ()
+  if Array.length Sys.argv > 4 && Sys.argv.(1) = "blocksize" then begin
+    (* the GENERATED pvCreateRawMemPool + MemPoolConst::CorrectBlockSize for a column list of total size t, alignment a, pool block count c *)
+    let t = z_of_string Sys.argv.(2) and a = z_of_string Sys.argv.(3) and c = z_of_string Sys.argv.(4) in
+    let ((size, al), _) = Gen_RawPool.pvCreateRawMemPool (fun _ -> t) (fun _ -> a) (z_of_int 0) in
+    print_endline (string_of_z (Gen_MemPoolConst.coq_CorrectBlockSize size al c))
+  end
+  else if Array.length Sys.argv > 1 && Sys.argv.(1) = "prog" then prog ()
   else iter_lines (fun line ->
     match words line with
     | "seq" :: evs -> run_seq evs
